@@ -43,6 +43,7 @@ def run(ctx):
                            plan_coq=c["coq"][:20000], observed=c["observed"][:3], failing_cases=len(bad),
                            replay_cmd="VERIF_SEED=%s ./check C19 --tier %s" % (ctx.seed, ctx.tier)))
     stops = sum(c["dist"]["stops"] for c in cases)
+    base = [c for c in cases if c["kind"] == "walk"]
     ctx.evidence(dict(
         evaluations=stops,
         distinct_nontrivial=fw.distinct_nontrivial(cases),
@@ -50,17 +51,23 @@ def run(ctx):
              "then nil/empty slices injected; for each plan the walk is run with a consumer stopping at every position k=1..n+1 and never; "
              "every walk is read twice: each Item abstracted inside the consumer, and the Item values kept (Chain not copied) and abstracted after the walk returned "
              "(aliased chains); ONE walk.Plan(p) value per plan is walked again and again (stopped at k then in full for k = 1, middle, last; full twice; "
-             "two goroutines at once, full+full and stopped+full; full once more) and every one of these walks goes to the model too; the kept reading of the full walk always goes to the model, that of an early stop when it differs from the in-loop reading; "
+             "two goroutines at once, full+full and stopped+full; full once more) and every one of these walks goes to the model too; "
+             "then the plan is CHANGED (a block / sequence / action appended, an absent group set) and iterators obtained or already walked BEFORE the change are walked: "
+             "they must yield the plan as it is now (case kind walk-changed); then a consumer adds, while it is handed an item, something the walk has not reached yet "
+             "(a sequence or group to the block it holds, an action to the sequence or group it holds, a block or group to the plan, the plan's deferred group from an action): "
+             "the walk must yield it, i.e. equal the model's walk of the plan as it is afterwards (case kind walk-live; additions to a slice already being ranged over are not asserted); the kept reading of the full walk always goes to the model, that of an early stop when it differs from the in-loop reading; "
              "evaluations = (plan, stop position) pairs; distinct = distinct full walks (hash of the yielded path/chain list); non-trivial = more than 3 objects",
-        samples=[dict(id=c["id"], input=c["input"], dist=c["dist"], full_walk=c["observed"][0]["items"][:12]) for c in cases[:3]],
+        samples=[dict(id=c["id"], input=c["input"], dist=c["dist"], full_walk=c["observed"][0]["items"][:12]) for c in base[:3]],
         traces_validated_against_impl=stops,
-        plans=len(cases),
-        distribution=dict(objects=fw.histogram(c["dist"]["objects"] for c in cases),
-                          blocks=fw.histogram(c["dist"]["blocks"] for c in cases),
-                          max_sequences_with_actions_in_a_block=fw.histogram(c["dist"]["seqs_with_actions"] for c in cases),
-                          walks_of_one_seq_value_per_plan=fw.histogram(c["dist"]["same_seq_walks"] for c in cases),
-                          kept_reading_differs_from_in_loop=fw.histogram(c["dist"]["kept_differs"] for c in cases),
-                          reshaped=fw.histogram(x.split(":")[1] if ":" in x else x for c in cases for x in (c["dist"]["reshaped"] or ["none"]))),
+        plans=len(base),
+        cases=fw.histogram(c["kind"] for c in cases),
+        changes=fw.histogram(c["dist"].get("change", "none") for c in cases if c["kind"] != "walk"),
+        distribution=dict(objects=fw.histogram(c["dist"]["objects"] for c in base),
+                          blocks=fw.histogram(c["dist"]["blocks"] for c in base),
+                          max_sequences_with_actions_in_a_block=fw.histogram(c["dist"]["seqs_with_actions"] for c in base),
+                          walks_of_one_seq_value_per_plan=fw.histogram(c["dist"]["same_seq_walks"] for c in base),
+                          kept_reading_differs_from_in_loop=fw.histogram(c["dist"]["kept_differs"] for c in base),
+                          reshaped=fw.histogram(x.split(":")[1] if ":" in x else x for c in base for x in (c["dist"]["reshaped"] or ["none"]))),
         coq_shards=[dict(shard=i["shard"], n=i["n"], rc=i["rc"], wall_s=round(i["wall"], 1)) for i in infos],
     ), assumptions=["the path numbering of objects and the abstraction of Go values to Coq terms done by the harness",
                     "nil elements inside Blocks/Sequences/Actions slices are outside C19's quantifier and are not generated here (C16 covers them)"])
